@@ -167,6 +167,12 @@ class _Inliner:
                 m = self._method(target_cls, f.attr)
                 if m is not None:
                     return m, f.value
+            else:
+                # `obj._helper(...)` on another object: a private method name defined by exactly one class of this module
+                owners = [m for c in self.classes.values() for m in c.body if isinstance(m, ast.FunctionDef) and m.name == f.attr]
+                if len(owners) == 1 and f.attr not in self.module_funcs and \
+                        not any(_decorator_name(d) in ("staticmethod", "classmethod") for d in owners[0].decorator_list):
+                    return owners[0], f.value
         return None
 
     # ---- one call -------------------------------------------------------------------------------------
